@@ -78,7 +78,6 @@ class DriverMixin:
         self.inlined = set()
         self.bounded_notes = set()
         st, params = self.initial_state()
-        self.entry = st.copy()
         # parameters become local variables
         argnames = [a.arg for a in ext.node.args.posonlyargs + ext.node.args.args + ext.node.args.kwonlyargs]
         if ext.node.args.vararg or ext.node.args.kwarg:
@@ -88,6 +87,7 @@ class DriverMixin:
             raise Unsupported("contract parameters %s do not match the function's %s" % (declared, argnames))
         for name in argnames:
             self.assign_var(st, name, params[name])
+        self.entry = st.copy()      # snapshot for old(...): parameters hold their entry values here
         self.is_generator = any(isinstance(n, (ast.Yield, ast.YieldFrom)) for n in ast.walk(ext.node))
         if self.is_generator:
             self.assign_var(st, "_yielded", ty.empty_seq(rt0 := self.spec.T(c.returns)))
